@@ -103,6 +103,13 @@ func Project(doc, projection bsonkit.Doc) (bsonkit.Doc, error) {
 		}
 	}
 
+	// included values are shared with the original document: detach the
+	// result before overlays are written into it, otherwise an overlay below
+	// an included path (e.g. {a: 1, "a.b": {$slice: 1}}) alters the original
+	if len(state.include) > 0 && len(state.merge) > 0 {
+		res = bsonkit.Clone(res)
+	}
+
 	// merge fields (overlays from operator expressions)
 	for path, value := range state.merge {
 		_, err := bsonkit.Put(res, path, value, false)
